@@ -1114,10 +1114,33 @@ def gen_C15(rng, tier):
     cases.append(cs[:1] + rng.sample(cs[1:], 3000))
     return cases
 
+def with_hops(gen):
+    """every plain iterator walk (`it <id> iter <arg> n,n,…`) gets a sibling walk by hops: `t<k>` = `nth(k)`, which `skip` and
+    `step_by` are built on, including hops to and past the end followed by further use of the same iterator"""
+    def g(rng, tier, *a):
+        cases = gen(rng, tier, *a)
+        r2 = random.Random(rng.random())
+        for c in cases:
+            extra = []
+            for l in c:
+                t = l.split(' ')
+                if t[0] == 'it' and t[2] == 'iter' and len(t) == 5 and set(t[4].split(',')) <= {'n'} and r2.random() < 0.5:
+                    k = min(len(t[4].split(',')), 14); ops = []
+                    for _ in range(k):
+                        q = r2.random()
+                        ops.append('n' if q < 0.45 else 'h' if q < 0.6 else 't%d' % (r2.choice([0, 1, 2, 3, 9]) if q < 0.9 else r2.choice([k, 200, 70000, MAXU, MAXU - 1])))
+                    ops += ['t%d' % r2.choice([100000, MAXU]), 'n', 'h', 'n']
+                    extra.append(' '.join(t[:4] + [','.join(ops)]))
+            c.extend(extra)
+        return cases
+    return g
+
 GENERATORS = {'C01': gen_C01, 'C02': gen_C02, 'C03': gen_C03, 'C04': gen_C04, 'C05': gen_C05, 'C06': gen_C06,
               'C07': gen_C07, 'C08': gen_C08, 'C09': gen_C09, 'C10': gen_C10, 'C11': gen_C11, 'C12': gen_C12,
               'C13': gen_C13, 'C14': gen_C14, 'C15': gen_C15, 'C16': gen_C16, 'C17': gen_C17, 'C18': gen_C18,
               'C19': gen_C19}
+GENERATORS = dict((k_, with_hops(v_)) for k_, v_ in GENERATORS.items())
+
 
 # ------------------------------------------------------------------------------------------------
 # Literal-directed search on large values (used only after a proof obligation or the correspondence broke).
